@@ -10,6 +10,7 @@ import (
 	"path/filepath"
 	"sort"
 	"strings"
+	"syscall"
 
 	"github.com/tonistiigi/fsutil"
 )
@@ -56,6 +57,28 @@ func hTar(o Op) map[string]interface{} {
 	if werr != nil {
 		res["werr"] = werr.Error()
 		return res
+	}
+	if so, ok := o["sink"].(map[string]interface{}); ok {
+		// the same export into a sink that fails after a given number of bytes (counted from the end of the complete archive, or as
+		// a share of it): an archive that was cut short must never be reported as written
+		sf := Op(so)
+		total := buf.Len()
+		limit := total - sf.num("from_end")
+		if _, ok := so["permille"]; ok {
+			limit = total * sf.num("permille") / 1000
+		}
+		if limit < 0 {
+			limit = 0
+		}
+		if limit < total {
+			lw := &limitWriter{left: limit, chunk: sf.num("chunk")}
+			err2 := fsutil.WriteTar(context.Background(), fs, lw)
+			m := map[string]interface{}{"limit": limit, "total": total, "err": ""}
+			if err2 != nil {
+				m["err"] = err2.Error()
+			}
+			res["sink"] = m
+		}
 	}
 	tr := tar.NewReader(bytes.NewReader(buf.Bytes()))
 	members := []interface{}{}
@@ -118,4 +141,26 @@ func hTar(o Op) map[string]interface{} {
 		res["extracted"] = snapsToJSON(snap)
 	}
 	return res
+}
+
+// limitWriter accepts `left` bytes and fails from then on (a full disk, a closed pipe); with chunk > 0 it also accepts at most
+// that many bytes per call (a short write is an error for the caller as well: io.ErrShortWrite)
+type limitWriter struct {
+	left  int
+	chunk int
+}
+
+func (w *limitWriter) Write(p []byte) (int, error) {
+	if w.left <= 0 {
+		return 0, syscall.ENOSPC
+	}
+	n := len(p)
+	if n > w.left {
+		n = w.left
+	}
+	w.left -= n
+	if n < len(p) {
+		return n, syscall.ENOSPC
+	}
+	return n, nil
 }
